@@ -83,8 +83,10 @@ def run(tier, seed):
                       f"({ev['st'][:120]}) evaluated to {json.dumps(ev['back'])[:160]}")
     # ---- sessions: snapshot, fresh process, load, snapshot ---------------------------------------------------------------------
     srows, g3 = gen.bfs(WORLD, "World", "WorldGen.cfg", {"MaxOps": 3 if quick else 4, "EmitFrom": 1}, timeout=3000)
+    drows, g4 = gen.bfs(WORLD, "World", "WorldDirected.cfg", {}, timeout=600)      # groups of items that belong together, and pairs of groups
+    srows += drows
     shards = 4
-    gens = [g1, g2, g3]
+    gens = [g1, g2, g3, g4]
 
     def walk(k):
         return gen.sim(WORLD, "World", "WorldSim.cfg", {"MaxOps": 19, "EmitFrom": 6}, num=(40 if quick else 400) // shards, depth=20, seed=seed * 100 + k, timeout=3000)
@@ -163,9 +165,9 @@ def run(tier, seed):
                     "distinct_nontrivial": vchecked + len(sessions), "exhaustive": True, "no_load_form": noform,
                     "rule": f"values: {len(objs)} objects of ObjGen (all leaves, hash tables and the structures around them) x right margins 20..120, one event per "
                             f"distinct text of the pretty-printed load form, judged by LoadForm.tla; sessions: every session of World.tla up to {3 if quick else 4} "
-                            "definitions (one per transition of the graph of defined sets) and random sessions of 6..19 definitions out of 19 items (variables, "
+                            "definitions (one per transition of the graph of defined sets), the directed sessions of World.tla (every group of related items completely, every two groups one after the other) and random sessions of 6..19 definitions out of 30 items (variables, "
                             "parameter changed later, constant, hash table, functions incl. a redefinition and optional / key parameters, macro, flavors with "
-                            "a method, inheritance and an instance, classes with accessors, generic function with methods, package with export), each run in a "
-                            "fresh process, snapshot loaded in another fresh process, 23 probes compared and the snapshot fixed point, judged by WorldTrace.tla",
+                            "a method, inheritance and an instance, flavors whose names sort against their inheritance, an inherited list default, classes with accessors, generic functions with methods and daemons, package with export), each run in a "
+                            "fresh process, snapshot loaded in another fresh process, 34 probes compared and the snapshot fixed point, judged by WorldTrace.tla",
                     "samples": [objs[0], sessions[-1]["items"]], "gen": gens, "probes": {k: len(v) for k, v in hit.items()}})
     return rep.finish()
